@@ -244,6 +244,10 @@ func init() {
 			e.initHeap("lock_held", "Bool")
 			c.obl("lock", "lock_not_already_held", not(e.heap(c.st, "lock_held", "Bool")))
 			e.setHeap(c.st, "lock_held", "Bool", "true")
+			// number of critical sections entered so far (lockcount() in contracts): an operation that must be
+			// atomic as a whole enters exactly one
+			e.initHeap("lock_count", "Int")
+			e.setHeap(c.st, "lock_count", "Int", app("+", e.heap(c.st, "lock_count", "Int"), "1"))
 			return Val{T: c.rt}
 		}
 		unlock := func(c *callCtx) Val {
